@@ -512,9 +512,15 @@ def rule_sub_defaults(fx, rep):
                   'computes %r (other becomes %r)' % (res[0][2].get(1) if res else None, res[0][2].get(2) if res else None), fx.fn(p)['span'], construct=p)
 
 
+def rule_general_formulas(fx, rep):
+    from props import c01gen
+    c01gen.rules(fx, rep, GROUPS)
+
+
 def rules(fx, rep):
     rule_projective_ops(fx, rep)
     rule_sub_defaults(fx, rep)
+    rule_general_formulas(fx, rep)
 
 
 def main(tier, t0):
@@ -525,7 +531,9 @@ def main(tier, t0):
         '-O=O), the equal-point test is the representation-independent pair X1 Z2^2 = X2 Z1^2, Y1 Z2^3 = Y2 Z1^3 (resp. the mixed form) and leads to double(), '
         'equality returns true exactly under both tests, conversions give (x,y,1) resp. (X/Z^2, Y/Z^3) with inversion only for Z != 0 and the Z = 1 fast path; '
         'batch normalisation decided for all 40 batches of <= 3 elements over {identity, normalised, general} (monomial domain: general -> (X/Z^2, Y/Z^3, 1), others untouched); '
-        'all of these as truth tables over the tested predicates (independent of how the tests are arranged); default sub_assign(_mixed) = add(negate(copy)). NOT decided: the '
-        'general-position formulas dbl-2009-l / add-2007-bl / madd-2007-bl and the normalisation arithmetic of batch_normalization (polynomial identities over runtime values).',
+        'all of these as truth tables over the tested predicates (independent of how the tests are arranged); default sub_assign(_mixed) = add(negate(copy)). General position (RING): '
+        'on every path of double / add_assign / add_assign_mixed for two finite operands, (X3/Z3^2, Y3/Z3^3) equals the affine tangent / chord law of (X_i/Z_i^2, Y_i/Z_i^3) as a polynomial '
+        'identity in the coordinates (cross-multiplied; the specification is computed from the affine law by fraction arithmetic), and Z3 vanishes where the path is also taken for P + (-P). '
+        'NOT decided: the normalisation arithmetic of batch_normalization beyond 3-element batches (uniform loop).',
         ['rustc MIR', 'base-field operation contracts (C08, C09)'],
-        ['sums are opaque: formulas of the general branch are out of reach of this family'])
+        ['exceptional cases by truth tables, general position by polynomial identities; both relative to the base-field contracts'])
